@@ -30,6 +30,7 @@ type SpecEnv struct {
 	hdr  *ssa.BasicBlock
 	at   ssa.Instruction // program point for local-variable lookup (call-site assertions)
 	soft bool            // failures are recorded in errs only (scope probing)
+	pos  bool            // the formula is a hypothesis and this is a positive position of it: facts about the body of a forall are conjoined, not assumed
 	bound map[string]bool // names bound by enclosing quantifiers (shadow locals)
 	errs []string
 }
@@ -525,7 +526,15 @@ func (c *Ctx) specVal0(env *SpecEnv, e ast.Expr, want types.Type) Val {
 		if x.Op == token.NOT {
 			w = types.Typ[types.Bool]
 		}
-		xv := c.specVal(env, x.X, w)
+		var xv Val
+		if x.Op == token.NOT && env.pos {
+			neg := *env
+			neg.pos = false
+			xv = c.specVal(&neg, x.X, w)
+			env.errs = append(env.errs, neg.errs[len(env.errs):]...)
+		} else {
+			xv = c.specVal(env, x.X, w)
+		}
 		if k, ok := isConstV(xv); ok {
 			return c.constV(constant.UnaryOp(x.Op, k, 0))
 		}
@@ -867,9 +876,18 @@ func (c *Ctx) specCall(env *SpecEnv, x *ast.CallExpr, want types.Type) Val {
 				env.errs = append(env.errs, sub.errs...)
 				return v
 			case "implies":
-				return Val{T: bt, S: fmt.Sprintf("(=> %s %s)", c.specBool(env, x.Args[0]), c.specBool(env, x.Args[1]))}
+				neg := *env
+				neg.pos = false
+				a := c.specBool(&neg, x.Args[0])
+				env.errs = append(env.errs, neg.errs[len(env.errs):]...)
+				return Val{T: bt, S: fmt.Sprintf("(=> %s %s)", a, c.specBool(env, x.Args[1]))}
 			case "iff":
-				return Val{T: bt, S: fmt.Sprintf("(= %s %s)", c.specBool(env, x.Args[0]), c.specBool(env, x.Args[1]))}
+				neg := *env
+				neg.pos = false
+				a := c.specBool(&neg, x.Args[0])
+				b := c.specBool(&neg, x.Args[1])
+				env.errs = append(env.errs, neg.errs[len(env.errs):]...)
+				return Val{T: bt, S: fmt.Sprintf("(= %s %s)", a, b)}
 			case "ite":
 				cnd := c.specBool(env, x.Args[0])
 				a := c.specVal0(env, x.Args[1], want)
@@ -1201,7 +1219,10 @@ func (c *Ctx) specQuant(env *SpecEnv, kind string, x *ast.CallExpr) Val {
 		for i := len(binds) - 1; i >= 0; i-- {
 			b := binds[i]
 			if b.name == "" {
-				if forall {
+				if forall && env.pos {
+					// hypothesis: the facts (definitions of pure functions, ranges) hold for every instance
+					t = fmt.Sprintf("(and %s %s)", b.term, t)
+				} else if forall {
 					t = fmt.Sprintf("(=> %s %s)", b.term, t)
 				} else {
 					t = fmt.Sprintf("(and %s %s)", b.term, t)
